@@ -164,6 +164,8 @@ fn graph2_to_1(g2: serde_json::Map<String, Value>) -> serde_json::Map<String, Va
 
 pub struct FullLoader<'a> {
   pub restarted: std::cell::Cell<bool>,
+  pub restart_seen: std::cell::Cell<bool>,
+  pub first_root: RefCell<Option<String>>,
   pub world: &'a World,
   pub reg: Registry<'a>,
   pub inner: WorldLoader<'a>,
@@ -183,7 +185,7 @@ impl<'a> FullLoader<'a> {
         }
       }
     }
-    Self { restarted: Default::default(), world, reg: Registry::new(world), inner: WorldLoader::new(world), events, files }
+    Self { restarted: Default::default(), restart_seen: Default::default(), first_root: Default::default(), world, reg: Registry::new(world), inner: WorldLoader::new(world), events, files }
   }
 
   fn meta_kind(&self, url: &str) -> Option<(String, Option<String>)> {
@@ -315,8 +317,12 @@ impl Loader for FullLoader<'_> {
       Some((n, Some(v))) => ("ver", n, v),
       None => ("", String::new(), String::new()),
     };
-    // the first cache-busting load of a package meta.json marks a full restart of the build
-    let restart = meta == "pkg" && setting == "reload" && !self.restarted.replace(true);
+    // a root specifier loaded a second time marks the full restart of the build (Builder::restart)
+    let is_root = self.world.roots.iter().any(|r| self.world.url_of(r) == specifier.as_str());
+    let restart = is_root && self.restarted.replace(true) && !self.restart_seen.replace(true) && self.first_root.borrow().as_deref() == Some(specifier.as_str());
+    if is_root && self.first_root.borrow().is_none() {
+      *self.first_root.borrow_mut() = Some(specifier.to_string());
+    }
     self.events.borrow_mut().push(json!({
       "ev": "load", "seq": next_seq(), "meta": meta, "mname": mname, "mver": mver, "restart": restart,
       "s": self.world.id_of(specifier.as_str()), "setting": setting,
@@ -450,6 +456,8 @@ pub fn build_full_sched(
       reporter: Some(&reporter),
       jsr_version_resolver: std::borrow::Cow::Borrowed(&resolver),
       prefer_cached_jsr_versions: world.opts.prefer_cached,
+      unstable_text_imports: true,
+      unstable_bytes_imports: true,
       passthrough_jsr_specifiers: world.opts.passthrough_jsr,
       ..Default::default()
     };
@@ -780,7 +788,8 @@ pub fn gen_world(rng: &mut StdRng, faults: bool) -> World {
           o.2.clone()
         }
       };
-      items.push(Item { t, sp: "0".into(), f, a: "none".into(), tt: "-".into() });
+      let a = if f != "export" && !t.starts_with("raw:") && rng.gen_bool(0.12) { "text" } else { "none" };
+      items.push(Item { t, sp: "0".into(), f, a: a.into(), tt: "-".into() });
     }
     let k = if faults && rng.gen_range(0..12) == 0 { ["missing", "err", "redirect", "external"][rng.gen_range(0..4)] } else { "mod" };
     let to = if k == "redirect" { file_ids[rng.gen_range(0..file_ids.len())].2.clone() } else { String::new() };
@@ -809,7 +818,10 @@ pub fn gen_world(rng: &mut StdRng, faults: bool) -> World {
     let k = if faults { match rng.gen_range(0..10) { 0 => "missing", 1 => "err", 2 if i + 1 < nremote => "redirect", _ => "mod" } } else { "mod" };
     let to = if k == "redirect" { rids[i + 1].to_string() } else { String::new() };
     world.mods.insert(id.to_string(), Resp { k: k.into(), items: its, st: "-".into(), to, src: None, headers: None, fin: None, stale: faults && rng.gen_bool(0.25) });
-    items.push(Item { t: id.to_string(), sp: "0".into(), f: forms[rng.gen_range(0..forms.len())].to_string(), a: "none".into(), tt: "-".into() });
+    let f = forms[rng.gen_range(0..forms.len())].to_string();
+    // asset imports (`with { type: "text" | "bytes" }`) go through Loader::ensure_cached
+    let a = if f != "export" && rng.gen_bool(0.3) { ["text", "bytes"][rng.gen_range(0..2)] } else { "none" };
+    items.push(Item { t: id.to_string(), sp: "0".into(), f, a: a.into(), tt: "-".into() });
   }
   world.mods.insert("r".into(), Resp { k: "mod".into(), items, st: "-".into(), to: String::new(), src: None, headers: None, fin: None, stale: false });
   world.ext.insert("r".into(), "ts".into());
